@@ -136,6 +136,12 @@ func (ft *fnTrans) callWrites(c *ssa.CallCommon) ([]string, bool) {
 	if nativeModel(key) {
 		return []string{compTop}, false
 	}
+	if isHigherOrder(key) {
+		if strings.HasPrefix(key, "slices.Sort") {
+			return []string{vc.compElems(c.Args[0].Type().Underlying().(*types.Slice).Elem())}, false
+		}
+		return nil, false
+	}
 	if fc := vc.P.cs.Funcs[key]; fc != nil {
 		comps := []string{compTop}
 		for _, it := range ft.staticModItems(fc, callee, c) {
